@@ -253,5 +253,49 @@ pub proof fn lemma_some_true_extends(ents: Seq<Entry>, idx: int, n: int, m: int,
     if n < m { lemma_some_true_extends(ents, idx, n, m - 1, d); lemma_unfold_some(ents, idx, m, d); }
 }
 
+// ---- U19.2: the specification is monotone in the subset definition (a larger definition never loses a patch) ----
+// if each entry's own test is monotone from d1 to d2, so is the recursive intersection
+pub open spec fn own_monotone(ents: Seq<Entry>, d1: &SubsetDefinition, d2: &SubsetDefinition) -> bool {
+    forall|i: int| 0 <= i < ents.len() && (#[trigger] ents[i]).own_intersects(d1) ==> ents[i].own_intersects(d2)
+}
+pub proof fn lemma_mono_intersects(ents: Seq<Entry>, idx: int, d1: &SubsetDefinition, d2: &SubsetDefinition)
+    requires own_monotone(ents, d1, d2), spec_intersects(ents, idx, d1)
+    ensures spec_intersects(ents, idx, d2)
+    decreases idx, 1int, 0int
+{
+    lemma_unfold_intersects(ents, idx, d1); lemma_unfold_intersects(ents, idx, d2);
+    if 0 <= idx < ents.len() {
+        let e = ents[idx];
+        let n = e.child_indices@.len() as int;
+        if n > 0 {
+            if e.conjunctive_child_match { lemma_mono_all(ents, idx, n, d1, d2); } else { lemma_mono_some(ents, idx, n, d1, d2); }
+        }
+    }
+}
+pub proof fn lemma_mono_all(ents: Seq<Entry>, idx: int, n: int, d1: &SubsetDefinition, d2: &SubsetDefinition)
+    requires own_monotone(ents, d1, d2), spec_all(ents, idx, n, d1), 0 <= idx < ents.len()
+    ensures spec_all(ents, idx, n, d2)
+    decreases idx, 0int, n
+{
+    lemma_unfold_all(ents, idx, n, d1); lemma_unfold_all(ents, idx, n, d2);
+    if !(n <= 0 || n > ents[idx].child_indices@.len()) {
+        let c = ents[idx].child_indices@[n - 1] as int;
+        lemma_mono_all(ents, idx, n - 1, d1, d2);
+        lemma_mono_intersects(ents, c, d1, d2);
+    }
+}
+pub proof fn lemma_mono_some(ents: Seq<Entry>, idx: int, n: int, d1: &SubsetDefinition, d2: &SubsetDefinition)
+    requires own_monotone(ents, d1, d2), spec_some(ents, idx, n, d1), 0 <= idx < ents.len()
+    ensures spec_some(ents, idx, n, d2)
+    decreases idx, 0int, n
+{
+    lemma_unfold_some(ents, idx, n, d1); lemma_unfold_some(ents, idx, n, d2);
+    if !(n <= 0 || n > ents[idx].child_indices@.len()) {
+        let c = ents[idx].child_indices@[n - 1] as int;
+        if spec_some(ents, idx, n - 1, d1) { lemma_mono_some(ents, idx, n - 1, d1, d2); }
+        else { lemma_mono_intersects(ents, c, d1, d2); }
+    }
+}
+
 }
 fn main() {}
